@@ -3,3 +3,5 @@ import NrfProofs.Exec
 import NrfProofs.Frame
 import NrfProofs.Hoare
 import NrfProofs.Example
+import NrfProofs.Lease
+import NrfProofs.LeaseJudge
